@@ -1,12 +1,12 @@
 SPECIFICATION Spec
 CONSTANTS
-  Times = {0, 1}
+  Times = {0}
   Prices = {1, 2}
-  Qtys = {1, 2, 3}
-  BalInit = {0, 300, 600}
-  FeePcts = {0, 50}
-  Lats = {2, 3}
-  Sinces = {0, 1, 2, 3}
+  Qtys = {1, 2}
+  BalInit = {300}
+  FeePcts = {50}
+  Lats = {2}
+  Sinces = {1}
   OpenCids = {"o1"}
   MaxTrades = 2
   ClockSlack = FALSE
